@@ -59,13 +59,18 @@ class Limit:
         self.resource = resource
         self.slot_duration = slot_duration
 
+        # True if the limit was declared without an interval of its own: it then covers
+        # the whole project, including the part the scheduler appends to the declared
+        # project end when the work does not fit.
+        self.follows_project = False
+
         self._dirty = True
         self._scoreboard: list[int] = []
         self.reset()
 
     def copy(self) -> "Limit":
         """Return a deep copy of this limit."""
-        return Limit(
+        limit = Limit(
             self.name,
             self.interval_start,
             self.interval_end,
@@ -75,6 +80,18 @@ class Limit:
             self.resource,
             self.slot_duration,
         )
+        limit.follows_project = self.follows_project
+        return limit
+
+    def _counter(self, sb_idx: int) -> Optional[int]:
+        """Return the counter of a period, or None if the period is outside the interval."""
+        if sb_idx < 0:
+            return None
+        if sb_idx >= len(self._scoreboard):
+            if not self.follows_project:
+                return None
+            self._scoreboard.extend([0] * (sb_idx + 1 - len(self._scoreboard)))
+        return self._scoreboard[sb_idx]
 
     def reset(self, index: Optional[int] = None) -> None:
         """
@@ -164,7 +181,7 @@ class Limit:
             return
 
         sb_idx = self._idx_to_sb_idx(index)
-        if 0 <= sb_idx < len(self._scoreboard):
+        if self._counter(sb_idx) is not None:
             self._dirty = True
             self._scoreboard[sb_idx] += 1
 
@@ -218,10 +235,10 @@ class Limit:
             return True
         else:
             sb_idx = self._idx_to_sb_idx(index)
-            if sb_idx < 0 or sb_idx >= len(self._scoreboard):
+            count = self._counter(sb_idx)
+            if count is None:
                 return True  # Outside interval, OK
 
-            count = self._scoreboard[sb_idx]
             if self.upper:
                 return count < self.value
             else:
@@ -333,9 +350,9 @@ class Limits:
         self._limits = [limit for limit in self._limits if not (limit.name == name and limit.resource == resource)]
 
         # Add new limit (using value_in_slots which is calculated from hours)
-        self._limits.append(
-            Limit(name, interval_start, interval_end, period, value_in_slots, upper, resource, slot_duration)
-        )
+        limit = Limit(name, interval_start, interval_end, period, value_in_slots, upper, resource, slot_duration)
+        limit.follows_project = interval is None
+        self._limits.append(limit)
 
     def inc(self, index: int, resource: Optional["Resource"] = None) -> None:
         """Increment all limit counters for the given index."""
